@@ -33,6 +33,7 @@ def _answers_reach_the_caller(rep, ex):
     """An operator's answer is observed through single_inference and the manager's report: both must hand every query
     its own answer (ROWS.key, ROWS.columns)."""
     wrappers.rows(rep, ex, which=("single", "manager"), rules=("ROWS.key", "ROWS.columns", "TIMEOUT.row"))
+    wrappers.refuse_manager(rep, ex, rules=("ROWS.key",))
 
 
 def _encoding_and_enumeration(rep, ex):
@@ -283,6 +284,7 @@ def C13(rep, prog, tier):
     wrappers.state_lifetime(rep, ex)
     wrappers.init_preserves_state(rep, ex)
     wrappers.rows(rep, ex)
+    wrappers.refuse_manager(rep, ex, rules=("ROWS.key",))
     wrappers.refuse(rep, ex, rules=("PREPROC.once",))
     rep.only = {"STATE.solver-per-query"}
     try:
@@ -479,7 +481,7 @@ def C06(rep, prog, tier):
     part.check_all(rep, ex)
     part.check_siblings(rep, ex)
     wrappers.refuse(rep, ex)
-    wrappers.refuse_manager(rep, ex)
+    wrappers.refuse_manager(rep, ex, rules=("REFUSE", "PREPROC.once", "TIMEOUT.row", "TIMEOUT.flow"))
     wrappers.init_preserves_state(rep, ex)
     wrappers.shortcut_dominance(rep, ex)
     diag.flags(rep, ex)
